@@ -758,4 +758,115 @@ def TextArg.stored : TextArg → Option Bytes
   | .octets b => some b
   | .str cps => utf16le cps
 
+/-! ## the forms of the `GPSData` / `LocationProtocol` constructor arguments
+
+The constructors take `Union[bytes, X]` arguments and keep an `X` object as it is.  An `X` object may
+carry more than is serialised (a `datetime.time` has microseconds, a UTC offset and `fold`; a
+`datetime` is a `date` with a time of day) or be of another numeric type (an `int` for a coordinate).
+The model gives every form a reading: the value the serialiser will see. -/
+
+/-- `greenwich_time: Union[bytes, time]`: a `datetime.time` (or subclass) with everything it carries,
+or six octets (`hhmmss` in ASCII digits, six NULs = absent) -/
+inductive TimeArg
+  | time (h m s us : Nat) (tz : Option Int) (fold : Nat)
+  | octets (b : Bytes)
+deriving DecidableEq, Repr
+
+/-- what `as_bytes` reads of the stored object: `strftime("%H%M%S")` looks at hour, minute and second
+only; octets go through `time(hour=int(b[0:2]), …)` -/
+def TimeArg.stored : TimeArg → R (Option (Nat × Nat × Nat))
+  | .time h m s _ _ _ => pure (some (h, m, s))
+  | .octets b => parseTime b
+
+/-- `greenwich_date: Union[bytes, date]`: a `date`, a `datetime` (a subclass of `date`: day + time of
+day, microseconds, UTC offset), or six octets (`ddmmyy`) -/
+inductive DateArg
+  | date (d m yy : Nat)
+  | datetime (d m yy h mi s us : Nat) (tz : Option Int)
+  | octets (b : Bytes)
+deriving DecidableEq, Repr
+
+/-- `strftime("%d%m%y")` looks at day, month and year only -/
+def DateArg.stored : DateArg → R (Option (Nat × Nat × Nat))
+  | .date d m y => pure (some (d, m, y))
+  | .datetime d m y _ _ _ _ _ => pure (some (d, m, y))
+  | .octets b => parseDate b
+
+/-- a coordinate: a number on the 10^-4 grid (`float`, `numpy.float64`, `Decimal`, `Fraction`: its value
+in units of 10^-4), a Python `int` (`bool`, `IntEnum`), or ASCII octets -/
+inductive CoordArg
+  | fixed4 (v4 : Nat)
+  | int (n : Nat)
+  | octets (b : Bytes)
+deriving DecidableEq, Repr
+
+def CoordArg.stored : CoordArg → R Nat
+  | .fixed4 v => pure v
+  | .int n => pure (n * 10000)
+  | .octets b => parseCoord b
+
+/-- `speed_knots: Union[bytes, float]` -/
+inductive SpeedArg
+  | float (s : Dec)
+  | octets (b : Bytes)
+deriving DecidableEq, Repr
+
+def SpeedArg.stored : SpeedArg → R Dec
+  | .float s => pure s
+  | .octets b => parseSpeed b
+
+/-- `direction: Union[bytes, int]` -/
+inductive DirArg
+  | int (n : Nat)
+  | octets (b : Bytes)
+deriving DecidableEq, Repr
+
+def DirArg.stored : DirArg → R Nat
+  | .int n => pure n
+  | .octets b => parseDir b
+
+structure GpsArgs where
+  valid : Bool
+  time : TimeArg
+  date : DateArg
+  north : Bool
+  lat : CoordArg
+  east : Bool
+  lon : CoordArg
+  speed : SpeedArg
+  dir : DirArg
+deriving DecidableEq, Repr
+
+/-- `GPSData.__init__` (evaluation order of the constructor) followed by what `as_bytes` reads -/
+def GpsArgs.init (a : GpsArgs) : R Gps := do
+  let time ← a.time.stored
+  let date ← a.date.stored
+  let lat ← a.lat.stored
+  let lon ← a.lon.stored
+  let speed ← a.speed.stored
+  let dir ← a.dir.stored
+  pure ⟨a.valid, time, date, a.north, lat, a.east, lon, speed, dir⟩
+
+/-- the plain form of GPS values: `time` / `date` objects without anything extra, floats, an int -/
+def Gps.plainArgs (g : Gps) : GpsArgs :=
+  ⟨g.valid,
+   match g.time with | some (h, m, s) => .time h m s 0 none 0 | none => .octets nul6,
+   match g.date with | some (d, m, y) => .date d m y | none => .octets nul6,
+   g.north, .fixed4 g.lat4, g.east, .fixed4 g.lon4, .float g.speed, .int g.direction⟩
+
+/-- an integer argument that may also be handed over as octets (`Union[int, bytes]`): request id,
+result (big-endian), RCP ids (little-endian), the id of a `RadioIP` -/
+inductive IntArg
+  | int (n : Nat)
+  | octets (b : Bytes)
+deriving DecidableEq, Repr
+
+def IntArg.be : IntArg → Nat
+  | .int n => n
+  | .octets b => ofBe b
+
+def IntArg.le : IntArg → Nat
+  | .int n => n
+  | .octets b => ofLe b
+
 end Dmr.Hytera
